@@ -1274,7 +1274,14 @@ namespace bloch::runtime {
             if (rc->staticStorage.size() < rc->staticFields.size())
                 rc->staticStorage.resize(rc->staticFields.size());
         };
-        for (auto& clsNode : program.classes) populate(clsNode.get());
+        m_buildingClassTable = true;
+        try {
+            for (auto& clsNode : program.classes) populate(clsNode.get());
+        } catch (...) {
+            m_buildingClassTable = false;
+            throw;
+        }
+        m_buildingClassTable = false;
     }
 
     RuntimeClass* RuntimeEvaluator::instantiateGeneric(
@@ -1407,7 +1414,11 @@ namespace bloch::runtime {
         if (rc->staticStorage.size() < rc->staticFields.size())
             rc->staticStorage.resize(rc->staticFields.size());
         m_classTable[key] = rc;
-        initStaticFields(rc.get());
+        // A generic base instantiated while the class table is being built ('class A extends
+        // G<int>') must not run its static initialisers yet: classes declared later in the
+        // file are not laid out, and the order would follow the order of declaration.
+        if (!m_buildingClassTable)
+            initStaticFields(rc.get());
         return rc.get();
     }
 
